@@ -275,12 +275,14 @@ def make_cases(run: Run, n_mut: int, n_gen: int, rnd):
         from vp.props.c13 import drop_flags
 
         fl = drop_flags(corpus.safe_flags(c.flags), ("--show-", "--hide-", "--pretty", "--no-pretty", "--no-error-summary", "--error-summary", "--soft-error-limit"))
+        if rnd.random() < 0.25 and "--native-parser" not in fl:
+            fl = fl + ["--native-parser"]  # the second front end must not fail internally either
         work.append(("%s+%s" % (c.name, "+".join(muts)), files, fl))
     if n_gen:
         from vp.props.c14 import gen_syntax_cases
 
         for gen, files, fl, minor in gen_syntax_cases(run.seed, n_gen, 0.5):
-            work.append((gen, files, ["--python-version", "3.%d" % minor]))
+            work.append((gen, files, ["--python-version", "3.%d" % minor] + (["--native-parser"] if rnd.random() < 0.5 else [])))
     return work
 
 
